@@ -346,26 +346,25 @@ func clipS(s string, n int) string {
 
 type classProbe struct {
 	name string
-	get  func() any
+	get  func(n col.NotationLike) any
 }
 
 func probesFor[T comparable](tag string) []classProbe {
-	n := cdc.Notation().Make()
 	return []classProbe{
-		{"List[" + tag + "]", func() any { return col.List[T](n) }},
-		{"Array[" + tag + "]", func() any { return col.Array[T](n) }},
-		{"Set[" + tag + "]", func() any { return col.Set[T](n) }},
-		{"Stack[" + tag + "]", func() any { return col.Stack[T](n) }},
-		{"Queue[" + tag + "]", func() any { return col.Queue[T](n) }},
-		{"Collator[" + tag + "]", func() any { return age.Collator[T]() }},
-		{"Sorter[" + tag + "]", func() any { return age.Sorter[T]() }},
-		{"Iterator[" + tag + "]", func() any { return age.Iterator[T]() }},
-		{"Catalog[" + tag + "," + tag + "]", func() any { return col.Catalog[T, T](n) }},
-		{"Map[" + tag + "," + tag + "]", func() any { return col.Map[T, T](n) }},
-		{"Association[" + tag + "," + tag + "]", func() any { return col.Association[T, T](n) }},
-		{"Catalog[" + tag + ",[]" + tag + "]", func() any { return col.Catalog[T, []T](n) }},
-		{"Map[string," + tag + "]", func() any { return col.Map[string, T](n) }},
-		{"Association[int," + tag + "]", func() any { return col.Association[int, T](n) }},
+		{"List[" + tag + "]", func(n col.NotationLike) any { return col.List[T](n) }},
+		{"Array[" + tag + "]", func(n col.NotationLike) any { return col.Array[T](n) }},
+		{"Set[" + tag + "]", func(n col.NotationLike) any { return col.Set[T](n) }},
+		{"Stack[" + tag + "]", func(n col.NotationLike) any { return col.Stack[T](n) }},
+		{"Queue[" + tag + "]", func(n col.NotationLike) any { return col.Queue[T](n) }},
+		{"Collator[" + tag + "]", func(n col.NotationLike) any { return age.Collator[T]() }},
+		{"Sorter[" + tag + "]", func(n col.NotationLike) any { return age.Sorter[T]() }},
+		{"Iterator[" + tag + "]", func(n col.NotationLike) any { return age.Iterator[T]() }},
+		{"Catalog[" + tag + "," + tag + "]", func(n col.NotationLike) any { return col.Catalog[T, T](n) }},
+		{"Map[" + tag + "," + tag + "]", func(n col.NotationLike) any { return col.Map[T, T](n) }},
+		{"Association[" + tag + "," + tag + "]", func(n col.NotationLike) any { return col.Association[T, T](n) }},
+		{"Catalog[" + tag + ",[]" + tag + "]", func(n col.NotationLike) any { return col.Catalog[T, []T](n) }},
+		{"Map[string," + tag + "]", func(n col.NotationLike) any { return col.Map[string, T](n) }},
+		{"Association[int," + tag + "]", func(n col.NotationLike) any { return col.Association[int, T](n) }},
 	}
 }
 
@@ -427,6 +426,9 @@ func RunC19Classes(c *core.Ctx, idx int) {
 	col.VerifSetHook(nil)
 	ps := allProbes()
 	const G = 16
+	// half of the callers share one notation instance, the others bring their own:
+	// the class of a type is the one class whichever notation a caller holds
+	shared := cdc.Notation().Make()
 	res := make([][]any, G)
 	var start, done sync.WaitGroup
 	start.Add(1)
@@ -436,11 +438,15 @@ func RunC19Classes(c *core.Ctx, idx int) {
 		done.Add(1)
 		go func() {
 			defer done.Done()
+			var n col.NotationLike = shared
+			if g%2 == 1 {
+				n = cdc.Notation().Make()
+			}
 			start.Wait()
 			for k := range ps {
 				// different goroutines walk the table from different offsets
 				i := (k + g*7) % len(ps)
-				res[g][i] = ps[i].get()
+				res[g][i] = ps[i].get(n)
 			}
 		}()
 	}
@@ -453,8 +459,12 @@ func RunC19Classes(c *core.Ctx, idx int) {
 				return
 			}
 		}
-		if res[0][i] != ps[i].get() {
+		if res[0][i] != ps[i].get(shared) {
 			c.Violation("classes/not-the-one-class", fmt.Sprintf("a later call received a different class for %s", ps[i].name), map[string]any{"accessor": ps[i].name})
+			return
+		}
+		if res[0][i] != ps[i].get(cdc.Notation().Make()) {
+			c.Violation("classes/not-the-one-class/other-notation", fmt.Sprintf("a later call holding another notation instance received a different class for %s", ps[i].name), map[string]any{"accessor": ps[i].name})
 			return
 		}
 	}
@@ -491,6 +501,7 @@ func RunC19Classes(c *core.Ctx, idx int) {
 			return
 		}
 		c.Cover("classes.getclass-agrees-with-accessor")
+		c.Cover("classes.callers-with-distinct-notations")
 	}
 	c.CoverN("classes.accessors-probed", len(ps))
 	if idx == 0 {
@@ -594,10 +605,12 @@ func ColdMain(args []string) int {
 			done.Add(1)
 			go func() {
 				defer done.Done()
+				// every caller holds a notation instance of its own
+				n := cdc.Notation().Make()
 				start.Wait()
 				for k := range ps {
 					i := (k + w*5) % len(ps)
-					res[w][i] = ps[i].get()
+					res[w][i] = ps[i].get(n)
 				}
 			}()
 		}
